@@ -166,6 +166,15 @@ func init() {
 		}
 		l.Def("estimateReserves", "Bool", fmt.Sprint(estMarks))
 
+		// --- the manual path refuses an input list that names an outpoint twice
+		rejDup := false
+		if fd := c.Func("masswallet/tx.go", "WalletManager", "constructTxIn"); fd != nil {
+			b := strings.Join(strings.Fields(c.Src(fd.Body)), " ")
+			rejDup = strings.Contains(b, "map[wire.OutPoint]struct{}") && regexp.MustCompile(`if _, \w+ := \w+\[\*prevOut\]; \w+ \{`).MatchString(b)
+		}
+		c.check("txbuild.manualRejectsDuplicates", rejDup, "constructTxIn does not refuse an outpoint that is named twice")
+		l.Def("manualRejectsDuplicates", "Bool", fmt.Sprint(rejDup))
+
 		// --- a reservation remembers the draft holding it; only that draft releases it
 		holder := false
 		if m, c2 := c.Func("masswallet/wallet.go", "WalletManager", "MarkUsedUTXO"), c.Func("masswallet/wallet.go", "WalletManager", "ClearUsedUTXOMark"); m != nil && c2 != nil {
